@@ -139,3 +139,15 @@ Example C03_example_reject :
   wf (Hstack [Identity [2; 3]; Identity [2; 4]] (Some (-1))) = false /\
   wf (Hstack [Resize [2; 3] [2; 3] None None; Resize [2; 3] [2; 4] None None] (Some (-1))) = true.
 Proof. vm_compute. auto. Qed.
+
+(* ---- library-backed leaf classes: advertised shapes through the function models (coq/proofs/OpaqueWavelet.v) ---- *)
+From SV Require Import model.Wavelet model.OpaqueWavelet proofs.OpaqueWavelet.
+
+(* [wavelet family] *)
+(* C03: with the stored coefficient shape consistent, [shapes] is what the two __init__ methods compute; and the
+   adjoint's shapes are the swap (every parameter) *)
+Theorem C03_wavelet_init_shapes :
+  forall orth cs L, wavelet_leaf_ok orth cs L = true -> wf L = true ->
+    exists s, wavelet_init_shapes cs L = Some s /\ shapes L = Ok s.
+Proof. exact shapes_are_init_shapes. Qed.
+Print Assumptions C03_wavelet_init_shapes.
